@@ -499,6 +499,133 @@ def writerKindsKnown (cs : List (Str × Bool × List Str)) : Bool :=
 def docStream (k : ReaderKind) (c : Codec) (s : Str) : Stream :=
   if k.unicodeIO then .text s else .binary (c.enc s)
 
+/-! ### `enumerate_plugin_names` -/
+
+theorem mem_dkeys_iff {V : Type} (d : List (Str × V)) (n : Str) : n ∈ dkeys d ↔ (dget d n).isSome = true := by
+  induction d with
+  | nil => simp [dkeys, dget]
+  | cons e r ih =>
+    obtain ⟨a, w⟩ := e
+    simp only [dkeys, List.map_cons, List.mem_cons, dget] at ih ⊢
+    by_cases h : a = n
+    · simp [h]
+    · have h' : ¬ n = a := fun e => h e.symm
+      simp [h, h', ih]
+
+theorem mem_installedNames_iff (tbl : Installed) (g n : Str) :
+    n ∈ installedNames tbl g ↔ (installedLookup tbl g n).isSome = true := by
+  induction tbl with
+  | nil => simp [installedNames, installedLookup]
+  | cons e r ih =>
+    obtain ⟨g', n', k⟩ := e
+    simp only [installedNames, List.filter_cons, installedLookup] at ih ⊢
+    by_cases hg : g' = g
+    · subst hg
+      by_cases hn : n' = n
+      · simp [hn]
+      · have hn' : ¬ n = n' := fun e => hn e.symm
+        simp [hn, hn', ih]
+    · have : (g' == g) = false := by simpa using hg
+      simp [this, hg, ih]
+
+/-- the names `enumerate_plugin_names` yields are exactly the keys of the group itself in the effective table -/
+theorem mem_enumerate_iff (tbl : Installed) (R : Registry) (g n : Str) :
+    n ∈ enumeratePluginNames tbl R g ↔ (eff tbl R g n).isSome = true := by
+  simp only [enumeratePluginNames, List.mem_append, mem_installedNames_iff, eff, runtimeGet]
+  cases hg : dget R g with
+  | none => simp
+  | some d =>
+    simp only [mem_dkeys_iff]
+    cases dget d n <;> simp
+
+theorem dget_runtimeSet_ne (R : Registry) (g n : Str) (k : Cls) (g' : Str) (h : g' ≠ g) :
+    dget (runtimeSet R g n k) g' = dget R g' := by
+  unfold runtimeSet
+  have h' : ¬ g = g' := fun e => h e.symm
+  cases dget R g <;> simp [dget_dset, h']
+
+/-! ### `parse_files` -/
+
+/-- `parse_files` over a concatenation is `parse_files` of the first part, then — on the database that
+gave, and only if it did not fail — `parse_files` of the second part. -/
+theorem parseFiles_append {Db E H : Type} (k : ReaderKind) (core : ReaderCore Db E) (c : Codec) (encName : Str)
+    (env : Env H) (content : H → Bytes) (sfx : Option Str) (data : Db) (fs1 fs2 : List Path) :
+    parseFiles k core c encName env content sfx data (fs1 ++ fs2) =
+      match (parseFiles k core c encName env content sfx data fs1).2 with
+      | .error e => ((parseFiles k core c encName env content sfx data fs1).1, .error e)
+      | .ok d' =>
+        ((parseFiles k core c encName env content sfx data fs1).1 ++
+            (parseFiles k core c encName env content sfx d' fs2).1,
+          (parseFiles k core c encName env content sfx d' fs2).2) := by
+  induction fs1 generalizing data with
+  | nil => simp [parseFiles]
+  | cons f fs ih =>
+    simp only [List.cons_append, parseFiles]
+    cases h : (parseFile k core c encName env content data (.path f) sfx).2 with
+    | error e => simp
+    | ok d1 =>
+      simp only [ih d1]
+      cases (parseFiles k core c encName env content sfx d1 fs).2 with
+      | error e => simp
+      | ok d2 => simp [List.append_assoc]
+
+/-! ### universal newlines -/
+
+/-- a text without carriage return is not changed by newline translation -/
+theorem univNl_of_noCR (s : Str) (h : '\r' ∉ s) : univNl s = s := by
+  induction s with
+  | nil => rfl
+  | cons x r ih =>
+    have hx : x ≠ '\r' := fun e => h (by simp [e])
+    have hr : '\r' ∉ r := fun m => h (List.mem_cons_of_mem _ m)
+    unfold univNl
+    split
+    · rename_i heq; cases heq
+    · rename_i heq; cases heq; exact absurd rfl hx
+    · rename_i heq; cases heq; exact absurd rfl hx
+    · rename_i heq; cases heq; rw [ih hr]
+
+/-- translated text has no carriage return left -/
+theorem noCR_univNl (s : Str) : '\r' ∉ univNl s := by
+  induction s using univNl.induct with
+  | case1 => simp [univNl]
+  | case2 r ih => simp only [univNl, List.mem_cons, not_or]; exact ⟨by decide, ih⟩
+  | case3 r hne ih =>
+    rw [univNl]
+    · simp only [List.mem_cons, not_or]; exact ⟨by decide, ih⟩
+    · intro r' h; exact hne r' h
+  | case4 c r h1 h2 ih =>
+    rw [univNl]
+    · simp only [List.mem_cons, not_or]
+      exact ⟨fun e => h2 e.symm, ih⟩
+    · intro r' h _; exact h2 h
+    · intro h; exact h2 h
+
+/-! ### `bytes.rstrip()` -/
+
+/-- `rstripBytes b` is `b` without its trailing run of ASCII white space: `b` is the result followed by
+white space only, and the result does not end in white space.  (These two facts determine it.) -/
+theorem rstripBytes_spec (b : Bytes) :
+    (∃ ws, b = rstripBytes b ++ ws ∧ ws.all isAsciiWsByte = true) ∧
+    (∀ x, (rstripBytes b).getLast? = some x → isAsciiWsByte x = false) := by
+  constructor
+  · refine ⟨(b.reverse.takeWhile isAsciiWsByte).reverse, ?_, ?_⟩
+    · have h := List.takeWhile_append_dropWhile (p := isAsciiWsByte) (l := b.reverse)
+      have h2 := congrArg List.reverse h
+      simp only [List.reverse_append, List.reverse_reverse] at h2
+      exact h2.symm
+    · rw [List.all_reverse]
+      exact List.all_takeWhile
+  · intro x hx
+    simp only [rstripBytes, List.getLast?_reverse] at hx
+    cases hd : b.reverse.dropWhile isAsciiWsByte with
+    | nil => simp [hd] at hx
+    | cons y r =>
+      simp only [hd, List.head?_cons, Option.some.injEq] at hx
+      subst hx
+      have := List.head?_dropWhile_not isAsciiWsByte b.reverse
+      simpa [hd] using this
+
 /-! ### a toy world for the non-vacuity examples -/
 namespace Toy
 
@@ -511,33 +638,40 @@ def codec : Codec := ⟨enc, dec⟩
 def bomCodec : Codec :=
   ⟨fun s => 255 :: 254 :: enc s, fun b => match b with | 255 :: 254 :: r => dec r | _ => .error "no BOM".toList⟩
 
-/-- a reader core that records what it was handed -/
-def reader : ReaderCore (List Stream) Unit Str where
+/-- a reader core that records what it was handed; as a text core (`.bibtex` wiring) it skips a first
+line that is an XML declaration, as ElementTree does for a `str`, and outer white space -/
+def reader : ReaderCore (List Stream) Unit where
   parseStream := fun d st => .ok (d ++ [st])
-  parseText := fun d s => .ok (d ++ [.text s])
-  fromBytes := fun b => match dec b with | .ok s => .ok ((s.dropWhile (· != '\n')).drop 1) | .error _ => .error ()
-  fromStr := fun s => .ok s
-  fromTextStream := fun s => .ok s
-  parseTree := fun d t => .ok (d ++ [.text t])
+  parseText := fun d s =>
+    .ok (d ++ [.text (strip (if s.take 5 = "<?xml".toList then (s.dropWhile (· != '\n')).drop 1 else s))])
 
-/-- a writer core whose document is the database itself -/
+/-- a writer core whose document is the database itself; like the BibTeX writer it does not call `write`
+at all when there is nothing to write -/
 def writer : WriterCore Str Unit where
-  writeText := fun d => .ok d
+  writeText := fun d => .ok (if d.isEmpty then [] else [d])
   writeBytes := fun d => .ok (enc d)
   xmlBody := fun d => .ok (d ++ ['\n'])
 
-/-- a world with one readable file `f.bib` holding `content`, where nothing can be created except below `/out` -/
-def env : Env Path where
+/-- a world with one readable file `f.bib`, a `kpsewhich` that knows `g.bib` (prints `/texmf/g.bib` and a
+newline), fails for `h.bib` (return code 1) and cannot be started for `k.bib`; nothing can be created
+except below `/out` -/
+def env : Env PathArg where
   opener := fun p mode _ =>
     if mode.contains 'w' then
-      (if p.take 5 = "/out/".toList then .ok p else .error ⟨"Permission denied".toList⟩)
-    else if p = "f.bib".toList then .ok p else .error ⟨"No such file or directory".toList⟩
+      match p with
+      | .str q => if q.take 5 = "/out/".toList then .ok p else .error ⟨"Permission denied".toList⟩
+      | .bytes _ => .error ⟨"Permission denied".toList⟩
+    else if p = .str "f.bib".toList ∨ p = .bytes (enc "/texmf/g.bib".toList) then .ok p
+    else .error ⟨"No such file or directory".toList⟩
   isFile := fun p => p = "f.bib".toList
-  locate := fun _ => .ok none
+  runKpsewhich := fun p =>
+    if p = "g.bib".toList then .ok (0, enc "/texmf/g.bib\n".toList)
+    else if p = "k.bib".toList then .error ⟨"No such file or directory".toList⟩
+    else .ok (1, [])
   environ := [("TEXMFOUTPUT".toList, "/out".toList)]
 
 /-- the same world with a fall-back directory in which nothing can be created either -/
-def envRO : Env Path := { env with environ := [("TEXMFOUTPUT".toList, "/ro".toList)] }
+def envRO : Env PathArg := { env with environ := [("TEXMFOUTPUT".toList, "/ro".toList)] }
 
 end Toy
 
